@@ -1224,6 +1224,9 @@ class NativeParser(Parser):
             # so that entries representing single value native types
             # (such as bool ,None, int, float) are transformed to its native type, accordingly.
             value = cast("V", self.parse_value(string_literal))
+            if isinstance(value, str):
+                # the literal's surrounding quotes were already removed on extraction
+                value = cast("V", string_literal)
 
             # Replace all occurences of placeholder within the dictionary with the original string literal.
             # Note: As find_global_key() is non-greedy and returns the key of
